@@ -477,7 +477,8 @@ def plan_C17(ctx):
     open(allh, "w").close()
     for fam in ("T2", "T3", "T8", "T16"):
         h = ctx.mc("MC_C17", env={"VERIF_FAMILY": fam}, tag="MC_C17_" + fam)
-        if fam in ("T2", "T3"):
+        # termination under weak fairness (a property of the model only): two threads on every change, three in thorough
+        if fam == "T2" or (fam == "T3" and ctx.deep):
             ctx.mc("MC_C17", cfg="MC_C17_live", env={"VERIF_FAMILY": fam}, tag="MC_C17_live_" + fam, export=False)
         with open(allh, "a") as f:
             f.write(open(h).read())
